@@ -157,6 +157,34 @@ PROPS['C12'] = {
                   'The symbol-table internals are assumed contracts, so the property is decided only up to them.',
 }
 
+_ORIGIN_TRUST = [
+    'BTreeSet::{is_superset, extend}, the set of items of a Range / slice iterator (specs/origin_body.rs verif_sets), derived Default/Clone of Origin: assumed',
+    'Origin::union (iterator adaptor code): assumed contract on the real signature',
+]
+PROPS['C03'] = {
+    'units': [{'template': 'origin.rs', 'rlimit': 30, 'items': [r'^datalog::origin::']}],
+    'proved': 'TrustedOrigins::from_scopes returns, for all scope lists, block indices and key maps, exactly the set trusted_spec of the Biscuit scoping rules '
+              '(membership predicate); TrustedOrigins::default = {authority, authorizer}; contains = subset test. Lemmas over the specification: L1 default trust of block i is exactly '
+              '{0, i, authorizer}; L2 (attenuation) a later block j is never in the trusted set of anything loaded from block i <= j or from the authorizer unless a scope of the rule or of '
+              'its block names a key under which j is registered; L3 previous = {0..=i} + authorizer; L4 a key scope adds exactly the blocks registered under it; L5 visibility is monotone '
+              'in the scope and antitone in the fact origin.',
+    'not_covered': ['the other half of C03: derived-fact origin = union of matched origins + rule block (Rule::apply / CombineIt::next) and the filtering of facts by contains() before matching '
+                    '(FactSet::iterator) live in Box<dyn Iterator> + closure code neither verifier ingests; the end-to-end implication "extended token authorized => original authorized" is NOT proved',
+                    'construction of public_key_to_block_id (HashMap::entry code in AuthorizerBuilder)'],
+    'assumptions': _ORIGIN_TRUST,
+    'level_text': 'Deductive proof of the trust-scope half of the property: every trusted-origin set the engine is handed equals the specification set, for all inputs, plus machine-checked lemmas stating '
+                  'the attenuation consequences over that specification. The provenance half (engine) is outside this technique here and is stated as not covered.',
+}
+PROPS['C04'] = {
+    'units': [{'template': 'origin.rs', 'rlimit': 30, 'items': [r'^datalog::origin::']}],
+    'proved': 'scope -> trusted origins: from_scopes equals trusted_spec for all inputs (authority, own block and authorizer by default; changed only by `trusting authority`, `previous` or a public key), '
+              'contains is the subset test deciding fact visibility.',
+    'not_covered': ['check / policy composition in authorize_inner and the match-one / match-all semantics of the engine'],
+    'assumptions': _ORIGIN_TRUST,
+    'level_text': 'Deductive proof of the scope computation only (the sentence "Facts are visible ... only when every block that contributed to them is trusted by its scope"): the decision composition and the '
+                  'engine are not decided by this check.',
+}
+
 # obligation pattern -> concrete witness search on the real crate (replay/src/main.rs)
 WITNESS = {
     r'token::(unverified::UnverifiedBiscuit|Biscuit)::block::call-pre': 'tools/replay.sh block_index',
@@ -165,8 +193,6 @@ WITNESS = {
 }
 
 NOT_APPLICABLE = {
-    'C03': 'check not built yet in this revision (planned: TrustedOrigins::from_scopes against the specification set, DESIGN.md 5/C03)',
-    'C04': 'check not built yet in this revision (planned: scope computation and query scoping, DESIGN.md 5/C04)',
     'C05': 'the join/fixpoint engine is Box<dyn Iterator> + move closures over HashMap<Origin, HashSet<Fact>>: Verus cannot type the iterator objects, so no contract can be attached to the join; Kani did not terminate on this code (DESIGN.md 5/C05)',
     'C06': 'check not built yet in this revision (planned: Binary::evaluate integer arms, DESIGN.md 5/C06)',
     'C10': 'check not built yet in this revision (planned: budget logic of run_with_limits, DESIGN.md 5/C10)',
